@@ -43,10 +43,22 @@ structure Variant where
   /-- `channel_number` of the FRU device locator and of the MC confirmation record is the raw byte
   (intended: bits [7:4]; the confirmation record's [3:0] are reported as `device_revision`) -/
   chanRaw : Bool
+  /-- `logical_physical` of the FRU device locator is the raw key byte 8 and its other two sub-fields are not
+  reported  (intended: `logical_physical` = bit [7], `access_lun` = [4:3], `private_bus_id` = [2:0]) -/
+  lpRaw : Bool
+  /-- `_common_record_key` masks the channel number [7:4] of key byte 7 away (`& 0x3`) and reports it nowhere
+  (intended: `channel_number` = [7:4] next to `owner_lun` = [1:0]) -/
+  keyNoChannel : Bool
   deriving Repr, DecidableEq, Inhabited
 
-def Variant.asShipped : Variant := ⟨true, true, true, true, true, true, true, true⟩
-def Variant.intended : Variant := ⟨false, false, false, false, false, false, false, false⟩
+def Variant.asShipped : Variant := ⟨true, true, true, true, true, true, true, true, true, true⟩
+def Variant.intended : Variant := ⟨false, false, false, false, false, false, false, false, false, false⟩
+
+/-- `_common_record_key(buffer.pop_slice(3))`: owner id, byte 7 ([7:4] channel number, [1:0] owner LUN), number. -/
+def recordKey (v : Variant) (oid olun num : Nat) : Fields :=
+  [("owner_id", .nat oid)] ++
+  (if v.keyNoChannel then [] else [("channel_number", .nat (olun >>> 4))]) ++
+  [("owner_lun", .nat (olun &&& 0x3)), ("number", .nat num)]
 
 /-- What `from_data` returns: the class (as kind), the attributes the specification speaks
 about, and attributes the specification does not speak about (compared with the real code by
@@ -167,8 +179,8 @@ def parseFull (v : Variant) (body : List Nat) : Outcome (Fields × Fields) :=
     nom :: nmax :: nmin :: smax :: smin :: unr :: ucr :: unc :: lnr :: lcr :: lnc :: ph :: nh ::
     r0 :: r1 :: oem :: rest =>
     let fs : Fields :=
-      [("owner_id", .nat oid), ("owner_lun", .nat (olun &&& 0x3)), ("number", .nat num),
-       ("entity_id", .nat eid), ("entity_instance", .nat einst),
+      recordKey v oid olun num ++
+      [("entity_id", .nat eid), ("entity_instance", .nat einst),
        ("initialization", .list (flagsOf [0x40, 0x20, 0x10, 0x08, 0x04, 0x02, 0x01] ini)),
        ("sensor_type_code", .nat st), ("event_reading_type_code", .nat et),
        ("assertion_mask", .nat (leOr [am0, am1])), ("deassertion_mask", .nat (leOr [dm0, dm1])),
@@ -207,8 +219,8 @@ def parseCompact (v : Variant) (body : List Nat) : Outcome (Fields × Fields) :=
   | oid :: olun :: num :: eid :: einst :: ini :: cap :: st :: et :: am0 :: am1 :: dm0 :: dm1 ::
     rm0 :: rm1 :: u1 :: u2 :: u3 :: rs0 :: rs1 :: ph :: nh :: r0 :: r1 :: r2 :: oem :: rest =>
     let fs : Fields :=
-      [("owner_id", .nat oid), ("owner_lun", .nat (olun &&& 0x3)), ("number", .nat num),
-       ("entity_id", .nat eid), ("entity_instance", .nat einst),
+      recordKey v oid olun num ++
+      [("entity_id", .nat eid), ("entity_instance", .nat einst),
        ("sensor_initialization", .nat ini), ("capabilities", .nat cap),
        ("sensor_type_code", .nat st), ("event_reading_type_code", .nat et),
        ("assertion_mask", .nat (leOr [am0, am1])), ("deassertion_mask", .nat (leOr [dm0, dm1])),
@@ -230,8 +242,8 @@ def parseEventOnly (v : Variant) (body : List Nat) : Outcome (Fields × Fields) 
   match body with
   | oid :: olun :: num :: eid :: einst :: st :: et :: rs0 :: rs1 :: r0 :: oem :: rest =>
     let fs : Fields :=
-      [("owner_id", .nat oid), ("owner_lun", .nat (olun &&& 0x3)), ("number", .nat num),
-       ("entity_id", .nat eid), ("entity_instance", .nat einst),
+      recordKey v oid olun num ++
+      [("entity_id", .nat eid), ("entity_instance", .nat einst),
        ("sensor_type", .nat st), ("event_reading_type_code", .nat et),
        ("record_sharing", .nat (leOr [rs0, rs1])),
        ("reserved", .nat r0), ("oem", .nat oem)]
@@ -248,8 +260,11 @@ def parseFruLocator (v : Variant) (body : List Nat) : Outcome (Fields × Fields)
   match body with
   | aa :: fid :: lp :: ch :: r0 :: dt :: dtm :: eid :: einst :: oem :: rest =>
     let fs : Fields :=
-      [("device_access_address", .nat (aa >>> 1)), ("fru_device_id", .nat fid),
-       ("logical_physical", .nat lp), ("channel_number", .nat (if v.chanRaw then ch else ch >>> 4)),
+      [("device_access_address", .nat (aa >>> 1)), ("fru_device_id", .nat fid)] ++
+      (if v.lpRaw then [("logical_physical", .nat lp)]
+       else [("logical_physical", .nat (lp >>> 7)), ("access_lun", .nat ((lp >>> 3) &&& 0x3)),
+             ("private_bus_id", .nat (lp &&& 0x7))]) ++
+      [("channel_number", .nat (if v.chanRaw then ch else ch >>> 4)),
        ("reserved", .nat r0),
        ("device_type", .nat dt), ("device_type_modifier", .nat dtm),
        ("entity_id", .nat eid), ("entity_instance", .nat einst),
@@ -299,10 +314,9 @@ def parseMcConfirmation (v : Variant) (body : List Nat) : Outcome (Fields × Fie
 
 /-! ### type C0h -/
 
-def parseOem (body : List Nat) : Outcome (Fields × Fields) :=
+def parseOem (v : Variant) (body : List Nat) : Outcome (Fields × Fields) :=
   match body with
-  | oid :: olun :: num :: _ =>
-    .ok ([], [("owner_id", .nat oid), ("owner_lun", .nat (olun &&& 0x3)), ("number", .nat num)])
+  | oid :: olun :: num :: _ => .ok ([], recordKey v oid olun num)
   | _ => .decodingError
 
 /-! ### `SdrCommon.from_data` -/
@@ -315,7 +329,7 @@ def parseKind (v : Variant) (k : Kind) (body : List Nat) : Outcome (Fields × Fi
   | .fruLocator => parseFruLocator v body
   | .mcLocator => parseMcLocator v body
   | .mcConfirmation => parseMcConfirmation v body
-  | .oem => parseOem body
+  | .oem => parseOem v body
   | .unknown => .ok ([], [])
 
 /-- `SdrCommon.from_data(data)` for a non-empty byte sequence: the type byte `data[3]` selects
